@@ -1646,9 +1646,19 @@ def explore(E, entry, args, max_paths=100000, on_path=None, deadline=None):
 
 def set_redirects(E, redirect):
     """redirect: {pattern: target function name}. pattern is a regex that must match exactly one defined function name."""
-    for pat, target in (redirect or {}).items():
-        rx = re.compile(pat)
+    redirect = dict(redirect or {})
+    if redirect.pop('__all_or_nothing__', False):
+        # abstraction of a pair (real kernel, reference kernel) by one uninterpreted function: if the real kernel no longer exists under
+        # this name (refactored), run without the abstraction (both sides fully symbolic) rather than abstracting one side only
+        for pat in redirect:
+            rx = re.compile(pat.lstrip('?'))
+            if not any(rx.search(n) for n in list(E.funcs) + list(E.decls)):
+                E.redirect.clear(); return
+    for pat, target in redirect.items():
+        optional = pat.startswith('?')            # '?pattern': redirect only if the function exists in this build of the unit
+        rx = re.compile(pat[1:] if optional else pat)
         hits = [n for n in list(E.funcs) + list(E.decls) if rx.search(n)]
+        if optional and not hits: continue
         if len(hits) != 1: raise EngineError('redirect pattern %r matches %d functions: %s' % (pat, len(hits), hits[:5]))
         if target not in E.funcs and target not in E.models: raise EngineError('redirect target %s not defined' % target)
         E.redirect[hits[0]] = target
